@@ -416,11 +416,15 @@ theorem WF_childAt (d : Doc) (sel : Sel) (c : Doc) (h : WF d) (hc : childAt d se
         exact WF_nonUndef v c (WF_slotFind k s v ((WF_obj _ _).1 h).2 hf) hc
     | arr items =>
       simp only at hc
-      cases hg : items[fastStrToNum k]? with
-      | none => simp [hg] at hc
-      | some v =>
-        simp only [hg] at hc
-        exact WF_nonUndef v c ((WF_arr _).1 h v (List.mem_of_getElem? hg)) hc
+      cases hk : arrayKeyIndex k with
+      | none => simp [hk] at hc
+      | some ki =>
+        simp only [hk] at hc
+        cases hg : items[ki]? with
+        | none => simp [hg] at hc
+        | some v =>
+          simp only [hg] at hc
+          exact WF_nonUndef v c ((WF_arr _).1 h v (List.mem_of_getElem? hg)) hc
     | _ => simp at hc
   | idx i =>
     simp only [childAt, childIdx] at hc
@@ -485,7 +489,11 @@ theorem WF_setChild (d : Doc) (sel : Sel) (x : Doc) (h : WF d) (hx : WF x) : WF 
       · exact h
   | arr items =>
     cases sel with
-    | key k => simp only [setChild, WF_arr]; exact setAtIdx_mem _ _ items WF ((WF_arr _).1 h) (fun _ _ => hx)
+    | key k =>
+      simp only [setChild]
+      cases arrayKeyIndex k with
+      | none => exact h
+      | some ki => simp only [WF_arr]; exact setAtIdx_mem _ _ items WF ((WF_arr _).1 h) (fun _ _ => hx)
     | idx i => simp only [setChild, WF_arr]; exact setAtIdx_mem _ _ items WF ((WF_arr _).1 h) (fun _ _ => hx)
   | _ => cases sel <;> simpa [setChild] using h
 
